@@ -32,9 +32,9 @@ def _case(s, fn):
     ns = s.choice([[8], [10], [12], [4, 3], [5, 4]])
     seed = s.choice([0, 1])
     multinom = s.chance(0.5)
-    p0 = [s.choice([0.5, 1.0, 2.0]) for _ in range(k)]
+    p0 = [s.choice([0.5, 1.0, 2.0, 3.0]) for _ in range(k)]
     eps = s.choice([0.01, 0.01, 0.003, 0.001, 0.03])
-    nboot = k + 2 + s.randint(1, 4)
+    nboot = k + 2 + s.choice([1, 3, 8, 12, 16])      # few bootstraps: J barely invertible (skipped as ill-conditioned); many: judged
     return k, ns, seed, multinom, p0, eps, nboot
 
 
